@@ -906,6 +906,8 @@ func SearchStreams(ctx context.Context, indexes []*Reader, limitIDs *bitmask.Lon
 	qs = qs.InlineTagFilters(tagDetails)
 
 	var sortingLess func(a, b *Stream) bool
+	// sortingLookupLess compares by the first sorting key only, which is the order of the sorting lookup
+	var sortingLookupLess func(a, b *Stream) bool
 	switch len(sorting) {
 	case 0:
 		// default search order is -ftime
@@ -950,6 +952,7 @@ func SearchStreams(ctx context.Context, indexes []*Reader, limitIDs *bitmask.Lon
 			}
 			return false
 		}
+		sortingLookupLess = sorters[0]
 	}
 
 	groupingData := (*grouper)(nil)
@@ -1105,7 +1108,7 @@ func SearchStreams(ctx context.Context, indexes []*Reader, limitIDs *bitmask.Lon
 				}
 				queryParts = append(queryParts, queryPart)
 			}
-			err := idx.searchStreams(ctx, &results, allResults, queryParts, groupingData, sorter, resultLimit, sortingLookup)
+			err := idx.searchStreams(ctx, &results, allResults, queryParts, groupingData, sorter, sortingLookupLess, resultLimit, sortingLookup)
 			if err != nil {
 				return nil, false, nil, err
 			}
@@ -1126,7 +1129,14 @@ func SearchStreams(ctx context.Context, indexes []*Reader, limitIDs *bitmask.Lon
 	return results.streams[skip:], results.resultDropped != 0, dataRegexes, nil
 }
 
-func (r *Reader) searchStreams(ctx context.Context, result *resultData, subQueryResults map[string]resultData, queryParts []queryPart, grouper *grouper, sortingLess func(a, b *Stream) bool, limit uint, sortingLookup func() ([]uint32, error)) error {
+func (r *Reader) searchStreams(ctx context.Context, result *resultData, subQueryResults map[string]resultData, queryParts []queryPart, grouper *grouper, sortingLess, sortingLookupLess func(a, b *Stream) bool, limit uint, sortingLookup func() ([]uint32, error)) error {
+	// when walking the sorting lookup, an early exit is possible at a stream that cannot enter the result.
+	// the lookup is only ordered by the first sorting key, with further keys a later stream with the same
+	// first key might still be better than the last result.
+	canExitAt := func(ss, last *Stream) bool {
+		return sortingLookupLess == nil || sortingLookupLess(last, ss)
+	}
+
 	// apply filters to lookup results or all streams, if no lookups could be used
 	filterAndAddToResult := func(activeQueryParts bitmask.ShortBitmask, si uint32) (bool, error) {
 		if err := ctx.Err(); err != nil {
@@ -1150,7 +1160,7 @@ func (r *Reader) searchStreams(ctx context.Context, result *resultData, subQuery
 
 		// check if the sorting and limit would allow this stream
 		if limitReached && !sortingLess(ss, result.streams[limit-1]) {
-			return true, nil
+			return canExitAt(ss, result.streams[limit-1]), nil
 		}
 
 		// check if the sorting within the groupKey allow this stream
@@ -1248,7 +1258,7 @@ func (r *Reader) searchStreams(ctx context.Context, result *resultData, subQuery
 			} else {
 				// we have a limit and are worse than the last
 				result.resultDropped++
-				return true, nil
+				return sortingLess == nil || canExitAt(ss, result.streams[limit-1]), nil
 			}
 		}
 
